@@ -580,8 +580,16 @@ package sam
 //@ func getVariantsSam
 //@   modifies everything
 //@   requires forall(t, 0, len(recv(cAlignPair)), len(recv(cAlignPair)[t].ref) == len(recv(cAlignPair)[t].query) && disjoint(recv(cAlignPair)[t].ref, recv(cAlignPair)[t].query))
+//@   # the annotation fits every pair's reference row: positions are within 1..(number of reference bases of the row), i.e. the
+//@   # row without '-' has the reference's length (C02) and the regions were built for that reference
+//@   requires forall(t, 0, len(recv(cAlignPair)), forall(j, 0, len(intregions), 1 <= intregions[j] && intregions[j] <= count(k, 0, len(recv(cAlignPair)[t].ref), recv(cAlignPair)[t].ref[k] != '-')))
+//@   requires forall(r, 0, len(cdsregions), len(cdsregions[r].Translation) * 3 >= len(cdsregions[r].Positions))
+//@   # rows of different pairs do not share arrays (each pair is built from fresh rows by blockToSeqPair)
+//@   requires forall(t, 0, len(recv(cAlignPair)), forall(u, 0, len(recv(cAlignPair)), implies(t != u, disjoint(recv(cAlignPair)[t].ref, recv(cAlignPair)[u].ref) && disjoint(recv(cAlignPair)[t].query, recv(cAlignPair)[u].ref))))
 //@   loop 1:
 //@     writes everything
+//@     invariant [fits.int] forall(t, range_i, len(recv(cAlignPair)), forall(j, 0, len(intregions), 1 <= intregions[j] && intregions[j] <= count(k, 0, len(recv(cAlignPair)[t].ref), recv(cAlignPair)[t].ref[k] != '-')))
+//@     invariant [fits.tr] forall(r, 0, len(cdsregions), len(cdsregions[r].Translation) * 3 >= len(cdsregions[r].Positions))
 //@     invariant len(sent(cVariants)) == range_i && len(sent(cErr)) == 0
 //@     invariant forall(t, 0, range_i, sent(cVariants)[t].Queryname == recv(cAlignPair)[t].queryname && sent(cVariants)[t].Idx == recv(cAlignPair)[t].idx)
 //@   loop 2:
@@ -594,6 +602,7 @@ package sam
 //@     invariant forall(j, 0, range_i, pair.ref[j] == EA[pre(1, pair.ref[j])]) && forall(j, range_i, len(pair.ref), pair.ref[j] == pre(1, pair.ref[j]))
 //@   before call:GetVariantsPair#1: assert [c11.args] pair == recv(cAlignPair)[range_i] && forall(j, 0, len(pair.ref), pair.ref[j] == EA[pre(1, pair.ref[j])] && pair.query[j] == EA[pre(1, pair.query[j])])
 //@   before call:GetVariantsPair#1: assert [c11.offsets] len(offsetMSACoord) == len(pair.ref) && forall(j, 0, len(pair.ref), implies(pair.ref[j] != 244, offsetMSACoord[j] == count(k, 0, j, pair.ref[k] == 244)) && implies(pair.ref[j] == 244, offsetMSACoord[j] == 0))
+//@   before call:GetVariantsPair#1: assert [hint.bases] forallb(c, (EA[c] == 244) == (c == '-')) && countsame(k, 0, len(pair.ref), pair.ref[k] != 244, pre(1, pair.ref[k]) != '-') && len(offsetRefCoord) == count(k, 0, len(pair.ref), pre(1, pair.ref[k]) != '-')
 //@   before call:GetVariantsPair#1: assert [c11.wiring] sameslice(arg(0), pair.ref) && sameslice(arg(1), pair.query) && arg(2) == pair.refname && arg(3) == pair.queryname && arg(4) == pair.idx && sameslice(arg(5), cdsregions) && sameslice(arg(6), intregions) && sameslice(arg(7), offsetRefCoord) && sameslice(arg(8), offsetMSACoord)
 //@   before call:GetMSAOffsets#1: assert [c11.offsets.of] sameslice(arg(0), pair.ref)
 //@   before send#2: assert [c11.forward] err == nil && AS.Queryname == pair.queryname && AS.Idx == pair.idx
